@@ -858,6 +858,15 @@ func faultsRun(args []string) int {
 	viol = append(append([]string{}, stViol...), viol...)
 	evals += stRuns
 	dist["plan"]["stale-timer-tick"] = stRuns
+	// quiet recovery (faults3.go): Head() answers "empty" / fails a few times, then the queue recovers on its own and NO API call follows
+	qrViol, qrRuns, qrReached := fqQuietRecovery()
+	viol = append(append([]string{}, qrViol...), viol...)
+	evals += qrRuns
+	dist["plan"]["quiet-recovery"] = qrRuns
+	dist["plan"]["quiet-recovery (fault reached)"] = qrReached
+	if qrReached > 0 {
+		distinct["quiet-recovery:loop/head/empty"] = true
+	}
 	if len(viol) > 40 {
 		viol = viol[:40]
 	}
